@@ -71,6 +71,8 @@ def make_typed_model2():
 # what a failing executor raises (by call number): includes the types a wrapper might mistake for its own
 EXC = (KeyError, TypeError, ValueError, AttributeError, StopIteration if False else RuntimeError)
 
+WHERE_SAME = "lambda e: e.jets().Select(lambda j: j.pt()).Count() > 1"
+
 BODIES = {
     # item kind -> {op: lambda source}
     "any": {"SelectSame": "lambda e: e.jets().Select(lambda j: j.pt())", "Select": "lambda e: e.x", "Where": "lambda e: e.x > 1", "SelectMany": "lambda e: e.ys",
@@ -85,7 +87,7 @@ BODIES = {
 
 
 class World:
-    def __init__(self, n_untyped=1, n_typed=1, n_typed2=0):
+    def __init__(self, n_untyped=1, n_typed=1, n_typed2=0, n_rootless=0):
         from func_adl import EventDataset
 
         world = self
@@ -117,8 +119,19 @@ class World:
         self.Event2, self.Jet2 = make_typed_model2()
         for i in range(n_typed2):
             self.datasets.append(DS(len(self.datasets), self.Event2))
+        # streams that are not rooted in a dataset object (built on a name): one untyped, the others typed
+        from func_adl import ObjectStream
+
+        self.rootless = [False] * len(self.datasets)
+        for i in range(n_rootless):
+            o = ObjectStream(ast.Name(f"xs{i}", ast.Load())) if i == 0 else \
+                ObjectStream[self.Event](ast.Name(f"xs{i}", ast.Load()), self.Event)
+            o.idx = len(self.datasets)
+            self.datasets.append(o)
+            self.rootless.append(True)
         self.streams = list(self.datasets)
-        self.mkind = ["any"] * n_untyped + ["Event"] * (n_typed + n_typed2)
+        self.mkind = ["any"] * n_untyped + ["Event"] * (n_typed + n_typed2) + \
+                     [("any" if i == 0 else "Event") for i in range(n_rootless)]
         self.root = list(range(len(self.datasets)))
         self.parent = [None] * len(self.datasets)
         self.terminal = [False] * len(self.datasets)
@@ -129,6 +142,7 @@ class World:
         self.shared = {k: ast.parse(v["Select"]).body[0].value for k, v in BODIES.items()}
         self.shared_same = ast.parse(BODIES["any"]["SelectSame"]).body[0].value
         self.shared_module = ast.parse(BODIES["any"]["SelectSame"])  # the Module-wrapped form ast.parse returns
+        self.shared_filter = ast.parse(WHERE_SAME).body[0].value  # ONE ast.Lambda used as a Where filter everywhere
         self.last = None  # details of the last execution
         self.track_twin = False
         self.twin = list(self.datasets)  # C16: the same derivations without any QMetaData
@@ -192,6 +206,10 @@ class World:
         if name == "SelectAstSame":
             # ONE user-held ast.Lambda object handed to streams of every kind
             return (lambda s: s.Select(self.shared_same)), ("Select", "ast-same"), False
+        if name == "WhereAstSame":
+            return (lambda s: s.Where(self.shared_filter)), ("Where", "ast-same"), False
+        if name == "SelectManyAstSame":
+            return (lambda s: s.SelectMany(self.shared_same)), ("SelectMany", "ast-same"), False
         if name == "SelectMod":
             # ONE user-held ast.Module (what ast.parse returns) handed to streams of every kind
             return (lambda s: s.Select(self.shared_module)), ("Select", "ast-module-same"), False
@@ -389,6 +407,10 @@ def history_code(roots, hist):
     lines = [_CODE_HEADER]
     types = [None] * roots[0] + ["Event"] * roots[1] + ["Event2"] * (roots[2] if len(roots) > 2 else 0)
     lines.append("streams = [" + ", ".join(f"DS({i}, {t})" if t else f"DS({i})" for i, t in enumerate(types)) + "]")
+    for i in range(roots[3] if len(roots) > 3 else 0):
+        lines.append("from func_adl import ObjectStream")
+        lines.append(f"streams.append(ObjectStream(ast.Name('xs{i}', ast.Load())))" if i == 0 else
+                     f"streams.append(ObjectStream[Event](ast.Name('xs{i}', ast.Load()), Event))")
     lines.append("seen = [snapshot(s) for s in streams]")
     for op in hist:
         name, i = op[0], op[1]
@@ -398,6 +420,10 @@ def history_code(roots, hist):
             code = f"streams.append(streams[{i}].{meth}({BODIES[k][name]!r}))"
         elif name == "SelectAstSame":
             code = f"SAME = globals().get('SAME') or ast.parse({BODIES['any']['SelectSame']!r}).body[0].value\nstreams.append(streams[{i}].Select(SAME))"
+        elif name == "WhereAstSame":
+            code = f"FILT = globals().get('FILT') or ast.parse({WHERE_SAME!r}).body[0].value\nstreams.append(streams[{i}].Where(FILT))"
+        elif name == "SelectManyAstSame":
+            code = f"SAME = globals().get('SAME') or ast.parse({BODIES['any']['SelectSame']!r}).body[0].value\nstreams.append(streams[{i}].SelectMany(SAME))"
         elif name == "SelectMod":
             code = f"MOD = globals().get('MOD') or ast.parse({BODIES['any']['SelectSame']!r})\nstreams.append(streams[{i}].Select(MOD))"
         elif name == "ValueMut":
